@@ -46,7 +46,9 @@ MACRO_KINDS = sorted(MACRO_FAMILIES)
 CLASSES = (['tr-m-minus1:' + a for a in ('surf-tr', 'trcl-num', 'fill-num',
                                          'trcl-inline13', 'fill-inline13',
                                          'trcl-star13', 'fill-star13',
-                                         'star-tr-card', 'tr-with-jumps')]
+                                         'star-tr-card', 'tr-with-jumps',
+                                         'surplus-entry-card',
+                                         'surplus-entry-inline')]
            + ['lattice-no-option', 'lattice-wrong-dim', 'lattice-extra-range',
               'lattice-range-wrong-slot', 'lattice-range-reversed']
            + [f'surf-few:{k}' for k in ELEM_KINDS]
@@ -56,6 +58,7 @@ CLASSES = (['tr-m-minus1:' + a for a in ('surf-tr', 'trcl-num', 'fill-num',
            + ['unknown-mnemonic', 'unknown-mnemonic-internal']
            + [f'facet-beyond:{k}' for k in MACRO_KINDS
               if k not in ('sph', 'ell')]
+           + ['facet-beyond-unconverted']
            + ['facet-zero', 'facet-on-plain', 'fill-array-short',
               'fill-array-long', 'fill-array-surplus-is-tr',
               'fill-array-short-with-parens', 'fill-four-ranges',
@@ -75,11 +78,17 @@ VALID_COUNTS = {'p': {4, 9}, 'kx': {2, 3}, 'ky': {2, 3}, 'kz': {2, 3},
 MALFORMED = ['malformed', 'three,-1:5', '{cell},', '{cell},0:4,0:4,0:4,0:4',
              '{cell},0:6.022e23', '{cell},-6.022e23:0', '{cell},0::5',
              '{cell},1-3', '{cell};0:3', '{cell},a:b', '{cell},0:',
-             ',0:3', '{cell},0:3,', '{cell},0:3;0:3', '{cell},0:3,0-3']
+             ',0:3', '{cell},0:3,', '{cell},0:3;0:3', '{cell},0:3,0-3',
+             # spellings Python's int() accepts, but which are not integers
+             '{cell},0:1_0', '{cell},0:\u0661', '{cell},-1_0:0',
+             '{cell}_0,0:3', '{cell},0__1:3']
 
 
 def plan(tier):
-    return [(cls, _PER[tier]) for cls in CLASSES]
+    # (the quick tier goes once through every malformed --lattice spelling)
+    return [(cls, len(MALFORMED) if tier == 'quick'
+             and cls == 'lattice-arg-malformed' else _PER[tier])
+            for cls in CLASSES]
 
 
 class _Sub:
@@ -143,6 +152,26 @@ def build_pair(case):
             bad = copy.deepcopy(deck)
             bad.trs[0].mflag = -1
             return deck, bad, f'TR{trc.id} with J entries and m=-1'
+        if arg == 'surplus-entry-card':
+            # fourteen numbers: m=-1 in the thirteenth position and one more
+            deck = c04.build(_Sub(case, f'{rng.choice(["surf-tr", "trcl-num"])}'
+                                  '|generic'))
+            trc = deck.trs[0]
+            full = [float(v) for v in trc.motion.b.reshape(9)]
+            trc.entries, trc.starred, trc.mflag = full, False, 1
+            bad = copy.deepcopy(deck)
+            bad.trs[0].entries = full + [rng.choice([-1, 1])]
+            bad.trs[0].mflag = rng.choice([0, 1, -1])
+            return deck, bad, f'TR{trc.id} with 14 entries'
+        if arg == 'surplus-entry-inline':
+            deck = c04.build(_Sub(case, 'trcl-inline13|generic'))
+            bad = copy.deepcopy(deck)
+            mval = rng.choice([-1, 1])
+            for cel in bad.cells:
+                if cel.trcl is not None:
+                    cel.trcl.entries[-1] = mval
+                    cel.trcl.entries.append(0)
+            return deck, bad, f'inline TRCL with 14 entries (m={mval})'
         if arg == 'star-tr-card':
             deck = c04.build(_Sub(case, f'{rng.choice(["surf-tr", "trcl-num"])}'
                                   '|generic'))
@@ -209,8 +238,9 @@ def build_pair(case):
             deck = gen_lat.build_rect(rng, 'cli-single')
             bad = copy.deepcopy(deck)
             pos = bad.cli.index('--lattice')
-            text = MALFORMED[(case.index * 7 + rng.randrange(len(MALFORMED)))
-                             % len(MALFORMED)].replace('{cell}',
+            pick = case.index if case.tier == 'quick' else \
+                case.index * 7 + rng.randrange(len(MALFORMED))
+            text = MALFORMED[pick % len(MALFORMED)].replace('{cell}',
                                                        str(gen_lat.LAT_CELL))
             if rng.random() < 0.5:
                 bad.cli[pos + 1] = text
@@ -323,6 +353,24 @@ def build_pair(case):
         sign = rng.choice([1, -1])
         cel.geom = M.AND(M.S(sign, facet=nfac + 1), cel.geom[2])
         return deck, bad, f'facet {nfac + 1} of a {arg} with {nfac} facets'
+    if head == 'facet-beyond-unconverted':
+        # the bad facet sits in a cell that is never converted: the outer
+        # cell of zero importance, or a cell of a universe that fills nothing
+        kind = rng.choice([k for k in MACRO_KINDS if k not in ('sph', 'ell')])
+        deck = c03.build(_Sub(case, f'{kind}|{rng.choice(MACRO_FAMILIES[kind])}'))
+        nfac = ref.n_facets(kind, deck.surfs[0].params)
+        bad = copy.deepcopy(deck)
+        leaf = M.S(rng.choice([1, -1]), facet=nfac + rng.choice([1, 1, 2, 5]))
+        where = rng.choice(['zero-importance', 'unused-universe'])
+        if where == 'zero-importance':
+            cel = [c for c in bad.cells if bad.importance_zero(c)][-1]
+            cel.geom = M.AND(leaf, cel.geom) if rng.random() < 0.5 else \
+                M.OR(cel.geom, leaf)
+        else:
+            bad.cells.append(M.Cell(777, mat=0, geom=leaf, imp={'n': '1'},
+                                    u=77))
+        return deck, bad, (f'facet {leaf[3]} of a {kind} with {nfac} facets '
+                           f'in a cell that is not converted ({where})')
     if head == 'facet-on-plain':
         kind = rng.choice(['px', 's', 'c/z', 'p', 'so', 'gq', 'tz'])
         deck = one_surface_deck(rng, kind, False)
